@@ -178,6 +178,72 @@ def check_requires(F, cg, req, fn=None, site=None, D=None):
                     return True, "an operand is the result of the preceding %s" % want
                 break
         return False, "no operand of this operation comes from a preceding %s any more (the evaluation order the argument relies on changed)" % want
+    if kind == "swapped_buffer_cleared_each_iteration":
+        # a candidate is built by pushing into a scratch Vec that is exchanged (mem::swap) with the kept one: every way from a push, round
+        # the outermost loop, to a push of a later iteration passes Vec::clear on that Vec — otherwise a candidate is appended to a stale one
+        from .dataflow import op_place
+        from .cfg import natural_loops, reachable
+
+        def recv_local(t):
+            p = op_place(t["args"][0]) if t.get("args") else None
+            for _ in range(4):
+                if p is None:
+                    return None
+                if p["p"] and p["p"] != ["*"]:
+                    return None
+                d = D.defs.single(p["l"])
+                if d is None or d[0] != "st" or d[3]["k"] != "=":
+                    return p["l"]
+                rv = d[3]["rv"]
+                if rv["k"] == "ref":
+                    p = rv["pl"]
+                    if p["p"] == ["*"]:
+                        p = {"l": p["l"], "p": []}   # a reborrow
+                        continue
+                    if p["p"]:
+                        return None
+                    return p["l"]
+                if rv["k"] == "use":
+                    p = op_place(rv["op"])
+                    continue
+                return p["l"]
+            return None
+        swapped = set()
+        for bi, tt in fn.calls():
+            if strip_generics(callee_name(tt) or "") == "core::mem::swap":
+                for a in tt["args"]:
+                    l = recv_local({"args": [a]})
+                    if l is not None:
+                        swapped.add(l)
+        loops = natural_loops(fn)
+        n_checked = 0
+        for v in sorted(swapped):
+            pushes = [bi for bi, tt in fn.calls() if strip_generics(callee_name(tt) or "").endswith("Vec::push") and recv_local(tt) == v]
+            clears = {bi for bi, tt in fn.calls() if strip_generics(callee_name(tt) or "").split("::")[-1] in ("clear", "truncate", "take") and tt.get("args") and recv_local(tt) == v}
+            clears |= {bi for bi, b in enumerate(fn.blocks) for st in b["s"] if st["k"] == "=" and not st["lhs"]["p"] and st["lhs"]["l"] == v}
+            clears |= {bi for bi, tt in fn.calls() if tt["dest"]["l"] == v and not tt["dest"]["p"]}
+            for pb in pushes:
+                outer = [(h, body) for h, body in loops if pb in body]
+                if not outer:
+                    continue
+                h, body = max(outer, key=lambda x: len(x[1]))
+                n_checked += 1
+                # the successor of the push call: the push itself has happened
+                start = fn.blocks[pb]["t"].get("t")
+                if start is None:
+                    continue
+                blocked = set(clears) | (set(range(len(fn.blocks))) - set(body))
+                r1 = reachable(fn, start, blocked=blocked) if start not in blocked else set()
+                if h not in r1:
+                    continue
+                r2 = reachable(fn, h, blocked=blocked - {h})
+                # a push reached again from the header without a clear in between, other than by staying in the same pass
+                if any(q in r2 for q in pushes):
+                    return False, "`%s` is pushed to at %s and can come round the loop at %s to the next push without being cleared (a candidate would be appended to a stale one)" % (
+                        fn.local_name(v) or "_%d" % v, fn.loc(fn.blocks[pb]["t"]), fn.loc(fn.blocks[h]["t"]))
+        if not n_checked:
+            return False, "no Vec that is both exchanged with mem::swap and pushed to inside a loop was found (the shape the argument relies on is gone)"
+        return True, "every swapped scratch Vec is cleared between two iterations that push to it (%d push sites)" % n_checked
     if kind == "only_called_from":
         # every direct/CHA/fn-ref caller of `fn` anywhere in the workspace is one of `callers` (name prefixes)
         targets = [f for f in F.fns.values() if strip_generics(f.name) == req["fn"] or (req.get("trait_method") and f.impl and f.impl.get("trait") == req["trait_method"][0] and f.name.endswith("::" + req["trait_method"][1]))]
@@ -254,7 +320,7 @@ def run_pps(F, R, rule, entry_names, kinds, cha_crates, registry_names=None, arm
                 R.undecided(rule, inst, "reachable %s site outside the armed scope (not triaged)" % s.kind, s.loc)
                 hist["undecided"] += 1
                 continue
-            how = discharge_const(s) or D.cond_rule(s) or D.folded_const_rule(s) or D.split_checked_rule(s) or D.type_rule(s) or D.guard_rule(s) or D.widened_rule(s) or D.size_rule(s) or D.slice_copy_rule(s) or D.counter_rule(s)
+            how = discharge_const(s) or D.cond_rule(s) or D.folded_const_rule(s) or D.split_checked_rule(s) or D.type_rule(s) or D.guard_rule(s) or D.widened_rule(s) or D.size_rule(s) or D.slice_copy_rule(s) or D.counter_rule(s) or D.dead_arm_rule(s)
             if how:
                 R.ok(rule, inst, how, s.loc, how=how.split(":")[0])
                 hist[how.split(":")[0]] += 1
